@@ -143,7 +143,7 @@ class Session:
     def header(self, h, seg="whole"):
         esc = self.feed(bytes(h), seg)
         fw.pump()
-        self.trace.append(dict(ev="hdr", h=list(h), react=self._react(esc)))
+        self.trace.append(dict(ev="hdr", h=list(h), dlen=len(self.expect_msg), react=self._react(esc)))
 
     def payload(self, wire, plain, seg="whole", first=False, is_data=False, dlen=None):
         """wire: octets as on the wire (masked); plain: unmasked payload (for compressed data frames: compressed octets)"""
@@ -425,6 +425,84 @@ def run_seq(inp, rng):
     return dict(traces=traces, cases=cases, seg_mismatch=seg_mismatch)
 
 
+def deflate_exact(n, rng):
+    """n octets of valid raw deflate data (stored blocks) for any n"""
+    if n <= 65540:
+        return deflate_prefix(n, rng)
+    out = b""
+    left = n
+    while left > 65540 + 5:
+        out += deflate_prefix(65540, rng)
+        left -= 65540
+    return out + deflate_prefix(left, rng)
+
+
+def compositions(rng, total, k):
+    """k non-negative parts summing to total (random, boundary-biased)"""
+    if k == 1:
+        return [total]
+    cuts = sorted(rng.choice([0, total, rng.randint(0, total), rng.randint(0, total)]) for _ in range(k - 1))
+    return [b - a for a, b in zip([0] + cuts, cuts + [total])]
+
+
+def run_limits(inp, rng):
+    """C16 receive side: messages of size limit-1 / limit / limit+1 / far beyond, spread over 1..4 fragments"""
+    traces, seg_mismatch = [], []
+    cases = 0
+    for lim in inp["limits"]:
+        for which in ("maxFrame", "maxMsg", "both"):
+            for size in sorted({max(0, lim - 1), lim, lim + 1, min(lim * 100, 300000) + 7}):
+                for k in (1, 2, 3, 4):
+                    for rep in range(inp.get("reps", 1)):
+                        role = rng.choice(["server", "client"])
+                        ctx = dict(role=role, failByDrop=rng.random() < 0.5, compress=rng.random() < 0.4,
+                                   maxFrame=lim if which in ("maxFrame", "both") else 0,
+                                   maxMsg=lim if which in ("maxMsg", "both") else (lim * 2 if which == "both" else 0))
+                        if which == "both":
+                            ctx["maxMsg"] = lim * 2
+                        binary = rng.random() < 0.5
+                        compressed_msg = ctx["compress"] and rng.random() < 0.6
+                        parts = compositions(rng, size, k)
+                        withhold = rng.random() < 0.3          # payload of the first over-limit frame is never sent
+                        cases += 1
+                        runs = []
+                        keyseed = rng.getrandbits(32)
+                        for seg in ("whole", rng.choice(["bytes", 2, 5])):
+                            krng = random.Random(keyseed)
+                            s = Session(ctx)
+                            msgs = [(binary, compressed_msg, parts), (True, False, [min(3, lim)])]   # a small follow-up message
+                            stop = False
+                            for (mbin, mcmp, mparts) in msgs:
+                                run_len = 0
+                                stream = deflate_exact(sum(mparts), rng) if mcmp else b""   # one contiguous deflate stream, cut anywhere
+                                for j, n in enumerate(mparts):
+                                    op = (2 if mbin else 1) if j == 0 else 0
+                                    fin = j == len(mparts) - 1
+                                    rsv = 4 if (mcmp and j == 0) else 0
+                                    plain = stream[run_len:run_len + n] if mcmp else (b"a" * n)
+                                    key = bytes(krng.getrandbits(8) for _ in range(4)) if role == "server" else None
+                                    raw = wsx.build_frame(op, plain, fin=fin, rsv=rsv, mask=key)
+                                    hl = len(raw) - n
+                                    b0 = raw[0]
+                                    dlen = s.note_data(b0, plain)
+                                    s.header(raw[:hl], seg if seg != "bytes" or hl < 20 else "bytes")
+                                    run_len += n
+                                    over = (ctx["maxFrame"] and n > ctx["maxFrame"]) or (ctx["maxMsg"] and run_len > ctx["maxMsg"])
+                                    if over and withhold:
+                                        stop = True
+                                        break
+                                    if n:
+                                        s.payload(raw[hl:], plain, seg if n < 300 else 4096, dlen=dlen)
+                                if stop:
+                                    break
+                            traces.append(s.trace)
+                            runs.append(list(s.total))
+                        fw.reset()
+                        if _norm(runs[0]) != _norm(runs[1]) and len(seg_mismatch) < 20:
+                            seg_mismatch.append(dict(ctx=ctx, parts=parts, whole=_show(runs[0])[:12], other=_show(runs[1])[:12]))
+    return dict(traces=traces, cases=cases, seg_mismatch=seg_mismatch)
+
+
 def _cmp_total(total):
     return _norm(total)
 
@@ -434,6 +512,8 @@ def main():
     rng = random.Random(int(os.environ.get("VERIF_SEED", "0")) * 65537 + inp.get("shard", 0))
     if inp["mode"] == "table":
         out = run_table(inp, rng)
+    elif inp["mode"] == "limits":
+        out = run_limits(inp, rng)
     else:
         out = run_seq(inp, rng)
     out["fw"] = fw.NAME
